@@ -1,6 +1,6 @@
 // C17: constructSurrogate checkpoints (sequential mode). Plain program (no symbolic data): it is run under strace to record the
 // file-system operation trace, and run again on materialised post-crash directories.
-// args: <grid spec> <budget> <batch>[p] <workdir>   (batch followed by 'p': the caller's grid is already in construction and holds a parked sample, e.g. read from an earlier interrupted run)     checkpoint file: <workdir>/ck ; model calls are logged by write(2) to <workdir>/calls.log
+// args: <grid spec> <budget> <batch>[p] <workdir>   (batch followed by 'L': the initial points are loaded by the caller, budget = further samples; batch followed by 'p': the caller's grid is already in construction and holds a parked sample, e.g. read from an earlier interrupted run)     checkpoint file: <workdir>/ck ; model calls are logged by write(2) to <workdir>/calls.log
 #include "TasmanianAddons.hpp"
 #include "tgrid.hpp"
 #include <fcntl.h>
@@ -18,6 +18,14 @@ int main(int argc, char **argv){
     GridSpec deep = g; deep.depth = g.depth + 2; deep.ll.clear(); TasmanianSparseGrid dg; makeGrid(dg, deep); std::vector<double> dp = dg.getPoints(); int nd = dg.getNumPoints();
     std::vector<double> x(dp.begin() + (size_t) (nd - 1) * d, dp.begin() + (size_t) nd * d), y(outs); for (int k=0;k<outs;k++) y[k] = SymModel::dflt(x, k);
     grid.loadConstructedPoints(x, y);
+  }
+  int preloaded = 0;
+  if (strchr(argv[3], 'L')){
+    // the caller's grid already holds its initial points (>= 1000 for the configurations that use this): finished samples then wait in the side storage that
+    // the checkpoint appends after the grid, and <budget> is the number of further samples
+    std::vector<double> np = grid.getNeededPoints(); size_t nn = np.size() / d; std::vector<double> vv(nn * outs);
+    for (size_t i=0;i<nn;i++){ std::vector<double> p(np.begin() + i * d, np.begin() + (i + 1) * d); for (int k=0;k<outs;k++) vv[i * outs + k] = SymModel::dflt(p, k); }
+    grid.loadNeededValues(vv); preloaded = (int) nn; budget += nn;
   }
   int logfd = open((dir + "/calls.log").c_str(), O_WRONLY | O_CREAT | O_APPEND, 0644);
   int calls = 0; int die_at = getenv("VERIF_DIE_AT_CALL") ? atoi(getenv("VERIF_DIE_AT_CALL")) : 0;
@@ -46,7 +54,7 @@ int main(int argc, char **argv){
     const double *v = grid.getLoadedValues();
     for (int i=0;i<n;i++){ std::vector<double> p = pointAt(lp, d, i); for (int k=0;k<outs;k++) err = std::max(err, std::fabs(v[(size_t) i * outs + k] - SymModel::dflt(p, k))); }
   }
-  printf("RESULT status=%d loaded=%d calls=%d err=%.3e what=%s\n", status, n, calls, err, what.c_str());
+  printf("RESULT status=%d loaded=%d calls=%d err=%.3e what=%s\n", status, n > preloaded ? n - preloaded : 0, calls, err, what.c_str());   // (points supplied by the caller are not counted)
   close(logfd);
   return status;
 }
